@@ -47,6 +47,6 @@ TraceSpec == TraceInit /\ [][TraceNext]_tvars
 TraceAccepted ==
   LET d == TLCGet("stats").diameter IN
   IF d - 1 = Len(Trace) THEN TRUE
-  ELSE /\ PrintT(<<"TRACE_REJECTED_AT_LINE", d, IF d <= Len(Trace) THEN Trace[d] ELSE "end">>)
+  ELSE /\ PrintT(<<"TRACE_REJECTED_AT_LINE", d>>)
        /\ FALSE
 =============================================================================
